@@ -7,6 +7,7 @@ package vrace
 
 import (
 	"fmt"
+	"strings"
 
 	"go.lstv.dev/util/internal/vsim/sched"
 )
@@ -38,6 +39,81 @@ var (
 // reset), so that sync/atomic function calls on &variable can be related to plain accesses.
 func Register(id int, addr uintptr) {
 	byAddr[addr] = id
+}
+
+type elemKey struct {
+	id     int
+	k1, k2 interface{}
+}
+
+var elems = map[elemKey]*state{}
+
+// getK returns the state of one element of an indexed variable (looked up, never iterated).
+func getK(s *sched.Sim, id int, keys []interface{}) *state {
+	k := elemKey{id: id}
+	if len(keys) > 0 {
+		k.k1 = keys[0]
+	}
+	if len(keys) > 1 {
+		k.k2 = fmt.Sprint(keys[1:]...)
+	}
+	v := elems[k]
+	if v == nil {
+		v = &state{}
+		elems[k] = v
+	}
+	if v.gen != s.Gen {
+		*v = state{gen: s.Gen, reads: make([]uint32, s.NumTasks()), aw: make([]uint32, s.NumTasks()), ar: make([]uint32, s.NumTasks())}
+	}
+	return v
+}
+
+// RK is a plain read of the element of variable id selected by keys.
+func RK(id int, keys ...interface{}) { access(id, keys, false) }
+
+// WK is a plain write of the element of variable id selected by keys.
+func WK(id int, keys ...interface{}) { access(id, keys, true) }
+
+func access(id int, keys []interface{}, write bool) {
+	s := sched.Cur
+	if s == nil || s.Aborted() {
+		return
+	}
+	Accesses++
+	s.Yield(sched.KAccess, id)
+	if s.Aborted() || !Enabled {
+		return
+	}
+	v := getK(s, id, keys)
+	me := s.CurTask()
+	what := fmt.Sprintf("%s%v", name(id), keys)
+	if v.hasW && v.wTask != me.ID && me.VC[v.wTask] < v.wClock {
+		failK(s, what, me, write, v.wTask, "previous write")
+		return
+	}
+	if !write {
+		v.reads[me.ID] = me.VC[me.ID]
+		return
+	}
+	for u, c := range v.reads {
+		if u != me.ID && c > me.VC[u] {
+			failK(s, what, me, write, u, "previous read")
+			return
+		}
+	}
+	v.hasW, v.wTask, v.wClock = true, me.ID, me.VC[me.ID]
+	for i := range v.reads {
+		v.reads[i] = 0
+	}
+}
+
+func failK(s *sched.Sim, what string, me *sched.Task, write bool, other int, otherWhat string) {
+	verb := "read"
+	if write {
+		verb = "wrote"
+	}
+	s.Fail("I5-shared-variable-race", "race:"+strings.ReplaceAll(what, " ", ","),
+		fmt.Sprintf("t%d %s %s with no happens-before edge from the %s by t%d: a data race in the real program", me.ID, verb, what, otherWhat, other))
 }
 
 func get(s *sched.Sim, id int) *state {
